@@ -81,6 +81,36 @@ def run(prop, tier, seed, replay=None):
             for c in [c for c in v["viol"] if c.startswith("C10_")]:
                 pair = [by_id.get(v["run"] - 1), by_id.get(v["run"])]
                 rep.violation({"clause": c, "initHasRunning": v["initHasRunning"]}, {"scenario_pair": pair, "verdict": v})
+        # ---- the parameter clause ("the retry uses ... the parameter values of the recorded run"): real start + retry runs
+        # with probe steps (the rig of C11), judged by ParamsObserve; only the retry-side clauses count here
+        import c11_check
+        pscs = [s for s in c11_check.scenarios(tier, seed) if s["atStart"] and not s["errNoise"]
+                and not any(p["name"] == "" and p["class"] == "eq" for p in s["params"])][:60 if q else 400]
+        pjobs = []
+        npw = min(vp.NCPU, 8)
+        for w in range(npw):
+            sf = os.path.join(work, "par-%d.jsonl" % w)
+            with open(sf, "w") as f:
+                for s in pscs[w::npw]:
+                    f.write(json.dumps(s) + "\n")
+            pjobs.append(["params", "-scenarios", sf, "-out", os.path.join(work, "parrec-%d.ndjson" % w)])
+        with cf.ThreadPoolExecutor(max_workers=npw) as ex:
+            list(ex.map(lambda a: rc.run_vh(vh, a, env=dict(vp.GOENV, TMPDIR=work), timeout=3000), pjobs))
+        prec = os.path.join(work, "parrecords.ndjson")
+        with open(prec, "w") as out:
+            for j in pjobs:
+                for line in open(j[-1]):
+                    out.write('{"kind":"run",' + line.lstrip()[1:])
+        pverdicts, pconsumed = rc.observe_records(work, "ParamsObserve", prec, minper=4000)
+        for v in pverdicts:
+            r = v["rec"]
+            for c in v["viol"]:
+                if c == "INFRA":
+                    raise Infra("params rig: %s" % r.get("infra"))
+                if c == "C11_RetryParametersDiffer":
+                    rep.violation({"clause": "C10_RetryUsesOtherParameters", "classes": sorted({p["class"] for p in r["sc"]["params"]})},
+                                  {"param_scenario": r["sc"], "rendered": r["rendered"], "recordedParams": r.get("recordedParams"), "probes": r["probes"]})
+        rep.cov["retry_runs_with_parameters"] = pconsumed
         samples = [json.loads(l) for l in open(rec).read().splitlines()[5000:5003]]
         samples += [{k: s.get(k) for k in ("id", "n", "deps", "init", "failK", "stop")} for s in list(by_id.values())[1:4]]
         rep.cov.update({"states": st1 + st2, "transitions": tr1 + tr2, "model_checking_runs": runs1 + runs2,
@@ -91,7 +121,7 @@ def run(prop, tier, seed, replay=None):
                                 "(judged only when the vector is Consistent, i.e. can be left behind by a run - an invariant of StepSched); retry runs: seeded first run (failures, stop, or killed-at-move snapshot) then its retry through the gates; "
                                 "non-trivial = at least one unfinished and one finished step (estimated as half)" % (3 if q else 4),
                         "samples": samples, "exhaustive": False})
-        rep.assumptions += ["agent-level clauses of C10 (new request id, recorded parameters) are covered by the C11/C08 rigs, not here",
+        rep.assumptions += ["the parameter clause of C10 is judged on the start + retry runs of the C11 rig (probe steps dump what they see in the retry)",
                             "recorded vectors are fed to the scheduler as NodeState.Status (what agent.setupGraphForRetry does with the persisted status)"]
         return rep.finish()
     finally:
